@@ -59,6 +59,9 @@ def text_value(rng):
     """Free text of info lines: words, blanks inside, dots, accents; no separators, no outer blanks."""
     words = [rng.choice(["Chopin", "op10", "no3", "W.", "A.", "Mozart", "Frèdéryk", "Cancino-Chacón", "k265_var1",
                          "score.musicxml", "perf#18.mid", "Pianist", "01", "Ünï", "L'isle"]) for _ in range(rng.randint(1, 4))]
+    if rng.random() < 0.15:
+        # file names and titles as they occur: a copy counter, an opus with a comma, an abbreviation closing a parenthesis
+        words.insert(rng.randrange(len(words) + 1), rng.choice(["take (1).mid", "(posth.).", "Op. 10, No. 3", "(2nd ed.)", "a).b"]))
     return " ".join(words)
 
 
